@@ -957,10 +957,13 @@ func privErrClass(err error) string {
 // reconstruct: the peer's GetClassAd must give back every attribute that was to be sent, with the
 // same expression, and none that was to be withheld.
 func (pr *privRun) reconstruct(pc *pcase, ad *classad.ClassAd, wire []byte, viol func(key, what, exp, obs string)) {
+	pr.c.Planned("privacy-receiver-reconstructions", 1)
 	w, err := newPWorld(pc.keyed, pc.encrypt, nil) // a fresh receiver: it learns the IV from the first protected frame
 	if err != nil {
+		pr.c.Res.Notes = append(pr.c.Res.Notes, "privacy: receiver world could not be set up: "+errClass(err))
 		return
 	}
+	pr.c.Ran("privacy-receiver-reconstructions", 1)
 	w.bc.Feed(wire)
 	got, gerr := message.NewMessageFromStream(w.bs).GetClassAd(bg)
 	if gerr != nil {
@@ -1232,6 +1235,14 @@ func (pr *privRun) multiAd(g *pgen, idx int) {
 			c.Violate(Violation{Property: "C13", Key: "C13:panic:privacy-multi", What: fmt.Sprintf("panic while serialising several ads through one Message: %v", r), Ops: []string{fmt.Sprintf("multi:%d", idx)}, Expected: "no panic", Observed: fmt.Sprint(r)})
 		}
 	}()
+	// planned vs run: the case counts as run when it reached a verdict (a violation, or the scan of the wire)
+	c.Planned("privacy-multi-ad-cases", 1)
+	judged := false
+	defer func() {
+		if judged {
+			c.Ran("privacy-multi-ad-cases", 1)
+		}
+	}()
 	w, err := newPWorld(true, c.Rng.Intn(2) == 0, nil)
 	if err != nil {
 		return
@@ -1261,12 +1272,14 @@ func (pr *privRun) multiAd(g *pgen, idx int) {
 		}
 		ops = append(ops, fmt.Sprintf("chan 1 %s", b01(encNow)), fmt.Sprintf("put-ad#%d IncludePrivate Name=slot%d %s=%q", k, k, name, cn))
 		if err := m.PutClassAdWithOptions(bg, ad, &message.PutClassAdConfig{Options: message.PutClassAdIncludePrivate}); err != nil {
+			judged = true
 			c.Violate(Violation{Property: "C09", Key: "C09:multi:send-failed", What: "serialising an ad through a Message that already carried one failed", Ops: ops, Expected: "ok", Observed: err.Error()})
 			return
 		}
 		if perAdEOM || k == nAds-1 {
 			// the bytes buffered for this ad leave under the mode it was written in
 			if err := m.FinishMessage(bg); err != nil {
+				judged = true
 				c.Violate(Violation{Property: "C09", Key: "C09:multi:finish-failed", What: "FinishMessage failed", Ops: ops, Expected: "ok", Observed: err.Error()})
 				return
 			}
@@ -1284,6 +1297,7 @@ func (pr *privRun) multiAd(g *pgen, idx int) {
 		}
 	}
 	fs, err := w.split(w.ac.AllOut)
+	judged = true
 	if err != nil {
 		c.Violate(Violation{Property: "C09", Key: "C09:multi:wire-unparseable", What: "the bytes written do not parse as frames", Ops: ops, Expected: "frames", Observed: err.Error()})
 		return
